@@ -1,0 +1,17 @@
+//go:build verif
+
+package proxy
+
+// Verification hooks for fallback server choice (property C17), second file.
+// Add-only, compiled only with -tags verif; no existing behaviour is changed.
+
+// SetDisconnectedInFlightServer is SetInFlightServer for a connection the backend has already
+// disconnected (serverConnection.gracefulDisconnect set, as serverConnection.disconnect does):
+// the state the player is in when the server it is connecting to kicks it.
+func (v *VerifC17Player) SetDisconnectedInFlightServer(rs RegisteredServer) {
+	sc := v.serverConn(rs)
+	if sc != nil {
+		sc.gracefulDisconnect.Store(true)
+	}
+	v.p.setInFlightConnection(sc)
+}
